@@ -4,8 +4,10 @@ import (
 	"fmt"
 	"strings"
 	"testing"
+	"time"
 
 	erpc "github.com/henrylee2cn/erpc/v6"
+	"github.com/henrylee2cn/erpc/v6/plugin/auth"
 	"github.com/henrylee2cn/erpc/v6/plugin/proxy"
 
 	"simrt"
@@ -46,7 +48,7 @@ func runC15(t *testing.T, seed uint64, m *Mask) *Report {
 	sc, nc, r := swarm(seed, m)
 	opt := world.Options{Seed: seed, Sim: sc, Net: nc}
 	proto := []string{"raw", "raw", "json", "pb", "thrift-binary"}[r.Intn(5)]
-	kinds := []string{"ok", "notfound", "badbody", "panic", "veto", "closed_call", "cut_pending", "dial_fail", "proxy_ok", "proxy_ok", "proxy_backend_closed", "proxy_push_backend_closed", "proxy_backend_cut", "proxy_push_ok", "reply_write_fails"}
+	kinds := []string{"ok", "notfound", "badbody", "panic", "veto", "closed_call", "cut_pending", "dial_fail", "proxy_ok", "proxy_ok", "proxy_backend_closed", "proxy_push_backend_closed", "proxy_backend_cut", "proxy_push_ok", "reply_write_fails", "handshake_timeout"}
 	n := 3 + r.Intn(13)
 	var hist []string
 	for i := 0; i < n; i++ {
@@ -114,6 +116,7 @@ func runC15(t *testing.T, seed uint64, m *Mask) *Report {
 		cli := e.NewPeer("cli", erpc.PeerConfig{})
 		direct, _, directConn, _ := e.ServePair(cli, backend, pf, pf)
 		viaProxy, _, _, _ := e.ServePair(cli, prox, pf, pf)
+		var authSrv erpc.Peer
 		tagN := 0
 		mkop := func(kind, route string) *world.Op {
 			tagN++
@@ -187,6 +190,22 @@ func runC15(t *testing.T, seed uint64, m *Mask) *Report {
 				simrt.WaitCond(func() bool { return done })
 			case "dial_fail":
 				cli.Dial("10.66.6.6:1", pf)
+			case "handshake_timeout":
+				// a pre-session receive (the auth checker's handshake) runs under a context age and the client
+				// stays silent: the read times out
+				if authSrv == nil {
+					authSrv = e.NewPeer("authsrv", erpc.PeerConfig{DefaultContextAge: time.Duration(10+e.Gen.Intn(40)) * time.Millisecond},
+						auth.NewCheckerPlugin(func(sess auth.Session, recv auth.RecvOnce) (interface{}, *erpc.Status) {
+							var info string
+							if st := recv(&info); !st.OK() {
+								return nil, st
+							}
+							return "welcome", nil
+						}))
+				}
+				silent, cb := e.Net.Pair()
+				authSrv.ServeConn(cb, pf)
+				silent.Close()
 			case "reply_write_fails":
 				// the server's write of the reply (to a call that fails in the framework, fails in the handler
 				// or succeeds) returns an error after a few bytes: the 104 path and its fallback reply
